@@ -210,7 +210,7 @@ PROPS = {
     ),
     "C14": dict(
         kani=[],
-        verus=["filegroup_counts"],
+        verus=["filegroup_counts", "report_header"],
         prefixes=["C14."],
         category="proof",
         trust=[],
